@@ -1,2 +1,5 @@
 import CpProofs.Num
 import CpProofs.Enum
+import CpProofs.Codec
+import CpProofs.Codec2
+import CpProofs.Reader
